@@ -545,13 +545,13 @@ Proof.
   - intros o ob' G G'. unfold get in *. simpl in G'. congruence.
 Qed.
 
-Lemma Frm_op_setitem : forall o key v, Frm (op_setitem o key v).
+Lemma Frm_op_setitem : forall cfg o key v, Frm (op_setitem cfg o key v).
 Proof.
   intros. unfold op_setitem. apply Frm_bind; [apply Frm_gets|]. intros [ob|]; [|apply Frm_raise].
   destruct (okind ob); try apply Frm_raise. destruct (ofrozen ob); [apply Frm_raise|].
   apply Frm_bind; [apply Frm_gets|]. intros old.
   apply Frm_bind; [|intros; apply Frm_modify; intros; auto].
-  destruct old as [i|]; [|destruct v; apply Frm_ret].
+  destruct (if itransfers cfg then old else None) as [i|]; [|destruct v; apply Frm_ret].
   destruct v as [p|c|c]; [apply Frm_set_pid|apply Frm_ret|].
   apply Frm_bind; [apply Frm_gets|]. intros [|]; [apply Frm_raise|apply Frm_modify; intros; auto].
 Qed.
